@@ -12,7 +12,7 @@
 (* crate) satisfies it.  The reciprocal relation is checked likewise       *)
 (* against native division.                                                *)
 (***************************************************************************)
-EXTENDS Ops
+EXTENDS Ops, Json
 CONSTANTS K
 
 VARIABLES n, sc, p, m, k, neg, ph
@@ -64,4 +64,6 @@ InvOK == ph = 2 /\ k = 2 /\ ~neg /\ InvSh >= 0 /\ InvSh <= 9 =>
      /\ (rmd = 0 => InverseOK(X, p, m, d(q + 1)) # OK /\ (q > 1 => InverseOK(X, p, m, d(q - 1)) # OK))   \* exact => only 1/x itself
      /\ InverseOK(X, p, m, d(q + 2)) # OK
      /\ InvTerminates(X, p) = (rmd = 0)
+\* every small x is a behaviour for the harness: sqrt / cbrt / inverse at precisions 1..6 under every mode, both signs
+Emit == ph = 1 => PrintT(<<"RUN", ToJson([gen |-> "root_family", a |-> [s |-> 1, l |-> <<n>>, e |-> sc]])>>)
 =============================================================================
